@@ -25,6 +25,41 @@ def download : List Outcome → Result
   | [] => ⟨[], 0, true⟩
   | .ok b :: _ => ⟨b, 1, false⟩
   | _ :: rest => let r := download rest; { r with contacted := r.contacted + 1 }
+
+/-! `BaseDatasetDownload` as a state machine: `path` = `file_path is not None`, `file` = content of
+the file it names (`none`: no such file).  `download` opens the target with mode "wb" (after the fix;
+"ab" appended to whatever was there), only after a mirror answered. -/
+structure DState where
+  path : Bool
+  file : Option (List Nat)
+  deriving DecidableEq, Repr
+
+inductive DOut where
+  | done | downloadError | typeError | fileNotFound | readFileError
+  | data (bytes : List Nat)
+  deriving DecidableEq, Repr
+
+inductive DOp where
+  | download (outs : List Outcome)
+  /-- `load()`; `readOk = false`: `read_file` raises IndexError -/
+  | load (readOk : Bool)
+  deriving DecidableEq, Repr
+
+def dstep (s : DState) : DOp → DState × DOut
+  | .download outs =>
+    let r := download outs
+    if r.error then (s, .downloadError)
+    else if !s.path then (s, .typeError)          -- `open(file=None)` at the first reachable mirror
+    else ({ s with file := some r.file }, .done)
+  | .load readOk =>
+    if !s.path then (s, .fileNotFound)
+    else match s.file with
+      | none => (s, .fileNotFound)                -- `read_file` cannot open the file
+      | some b => if readOk then (⟨false, none⟩, .data b) else (s, .readFileError)
+
+def drun (s : DState) : List DOp → DState × List DOut
+  | [] => (s, [])
+  | op :: ops => let (s1, o) := dstep s op; let (s2, os) := drun s1 ops; (s2, o :: os)
 end Download
 
 /-! ### SEA / Dummy generators -/
